@@ -351,6 +351,9 @@ def config_cases(tier):
     for nm in ("eff", "eff-leak", "doppler", "amp", "all-rates"):
         for obs in (("bit",), ("occ", "corr")):
             out.append(("config", obs, (0.0, 0.5, 1.0), None, nm))
+    for flag in ("with_modulation", "prefer_device_noise_model"):
+        for kind in ("np-true", "np-false", "np-comparison", "int-1", "int-0", "true", "false"):
+            out.append(("config-flags", flag, kind))
     for n1, n2, n3 in itertools.permutations([1, 2, 3], 3):
         out.append(("alias-state", (n1, n2, n3)))
     for which in ("dict", "list", "matrix", "times", "all"):
@@ -422,6 +425,32 @@ def check_config(obs, times, init, nm):
         out.append(("C17:config-observables-differ", f"{o1} -> {o2}"))
     if back.noise_model != cfg.noise_model:
         out.append(("C17:config-noise-model-differs", ""))
+    return out + [("@config", "")]
+
+
+def check_config_flags(flag, kind):
+    """The two boolean options of an emulation configuration given as something truthy / falsy that is not a Python bool (the result
+    of a numpy comparison, 0 / 1): the configuration is built, serialises to a schema-valid document and comes back with the same truth
+    values as plain booleans."""
+    from pulser.backend import BitStrings, EmulationConfig
+
+    val = {"np-true": np.bool_(True), "np-false": np.bool_(False), "np-comparison": (np.array([1.0, 2.0]) > 0.5).any(), "int-1": 1, "int-0": 0,
+           "true": True, "false": False}[kind]
+    try:
+        cfg = EmulationConfig(observables=[BitStrings(evaluation_times=[1.0])], **{flag: val})
+    except Exception as e:
+        return [("@config-not-constructible", str(e)[:100])]
+    try:
+        doc = cfg.to_abstract_repr()
+        back = EmulationConfig.from_abstract_repr(doc)
+    except Exception as e:
+        return [(f"C17:config-roundtrip-raises:{type(e).__name__}:{flag}={kind}", f"{e}"[:200])]
+    out = []
+    got, got_back = getattr(cfg, flag), getattr(back, flag)
+    if bool(got) != bool(val) or got_back is not bool(val):
+        out.append((f"C17:config-flag-roundtrip-differs:{flag}={kind}", f"given {val!r}, stored {got!r}, decoded {got_back!r}"))
+    if json.loads(doc).get(flag) is not bool(val):
+        out.append((f"C17:config-flag-not-a-json-boolean:{flag}={kind}", f"document holds {json.loads(doc).get(flag)!r}"))
     return out + [("@config", "")]
 
 
@@ -517,6 +546,8 @@ def worker(case):
             return check_detmap(case[1], case[2])
         if k == "config":
             return check_config(*case[1:])
+        if k == "config-flags":
+            return check_config_flags(case[1], case[2])
         return check_alias(k, case[1])
 
 
